@@ -27,16 +27,20 @@ func VerifC12ValidatedGenesisImportIsConsistent() {
 	n := rt.IntRange("pairs", 1, 2)
 	var pairs []types.TokenPair
 	for i := 0; i < n; i++ {
-		denoms := []string{rt.Str("denom0")}
-		if rt.Bool("twoDenoms") {
-			denoms = append(denoms, rt.Str("denom1"))
+		var denoms []string // a genesis file may list a pair without any denomination: validation has to refuse it
+		for j, nd := 0, rt.IntRange("ndenoms", 0, 2); j < nd; j++ {
+			denoms = append(denoms, rt.Str("denom"))
 		}
 		addr := rt.Str("erc20Address")
 		rt.Assume(len(addr) == 42) // bound: 0x-prefixed spellings (any letter case); the 40-digit spelling without prefix is outside
 		pairs = append(pairs, types.TokenPair{ERC20Address: addr, Denoms: denoms, Enabled: rt.Bool("pairEnabled"), ContractOwner: types.Owner(rt.U32("owner"))})
 	}
 	gs := types.GenesisState{Params: types.Params{EnableAggregate: rt.Bool("enableAggregate"), EnableEVMHook: rt.Bool("enableEVMHook")}, TokenPairs: pairs}
-	rt.Assume(gs.Validate() == nil)
+	var verr error
+	if rt.Panics(func() { verr = gs.Validate() }) {
+		return // a validation that panics does not accept the state
+	}
+	rt.Assume(verr == nil)
 	dst := rt.EmptyCtx()
 	if rt.NoPanic("R6-validated-genesis-is-imported-without-panic", func() { InitGenesis(dst, *k, authkeeper.AccountKeeper{}, gs) }) {
 		return
